@@ -49,7 +49,11 @@ func TestVerif(t *testing.T) {
 			p := w.Generate(simkit.NewRNG(simkit.RunSeed(*fSeed, *fProp, idx)), *fTier, idx)
 			r := simkit.NewRun(os.Getenv("VERIF_DUMPLOG") != "")
 			v := simkit.SafeExecute(t, w, p, r, *fProp)
-			fmt.Printf("DIGEST run=%d %s steps=%d viol=%v\n", idx, r.Digest(), r.Steps, v != nil)
+			d := r.Digest()
+			if r.MapOrdered {
+				d = "map-ordered"
+			}
+			fmt.Printf("DIGEST run=%d %s steps=%d viol=%v\n", idx, d, r.Steps, v != nil)
 			for _, l := range r.Log {
 				fmt.Printf("  %d| %s\n", idx, l)
 			}
